@@ -60,7 +60,8 @@ func (b *boltdbStorage) Save(id []byte, context common.TokenContext, data []byte
 // Get data with defined id and context
 func (b *boltdbStorage) Get(id []byte, context common.TokenContext) ([]byte, error) {
 	var value []byte
-	var updatedMetadata []byte
+	var accessTimeUpdate bool
+	var now time.Time
 	ctx := common.AggregateTokenContextToBytes(context)
 	err := b.db.View(func(tx *bolt.Tx) error {
 		bucket := tx.Bucket(tokenBucket)
@@ -84,11 +85,8 @@ func (b *boltdbStorage) Get(id []byte, context common.TokenContext) ([]byte, err
 			return common.ErrTokenDisabled
 		}
 		// Keep last access time updated, but don't update it more often than specified granularity.
-		now := time.Now().UTC()
-		if metadata.AccessedBefore(now, b.accessGranularity) {
-			metadata.Accessed = now
-			updatedMetadata = common.EmbedMetadata(data, metadata)
-		}
+		now = time.Now().UTC()
+		accessTimeUpdate = metadata.AccessedBefore(now, b.accessGranularity)
 		value = data
 		return nil
 	})
@@ -96,7 +94,7 @@ func (b *boltdbStorage) Get(id []byte, context common.TokenContext) ([]byte, err
 		return nil, err
 	}
 	// If metadata update is needed, open a separate writeable transaction to perform it.
-	if updatedMetadata != nil {
+	if accessTimeUpdate {
 		err := b.db.Update(func(tx *bolt.Tx) error {
 			bucket := tx.Bucket(tokenBucket)
 			if bucket == nil {
@@ -106,7 +104,21 @@ func (b *boltdbStorage) Get(id []byte, context common.TokenContext) ([]byte, err
 			if ctxBucket == nil {
 				return common.ErrTokenNotFound
 			}
-			return ctxBucket.Put(id, updatedMetadata)
+			// The token may have been disabled or removed since it was read: look again,
+			// so that the access time update never brings an older state of the entry back.
+			encoded := ctxBucket.Get(id)
+			if encoded == nil {
+				return common.ErrTokenNotFound
+			}
+			data, metadata, err := common.ExtractMetadata(encoded)
+			if err != nil {
+				return err
+			}
+			if metadata.Disabled {
+				return common.ErrTokenDisabled
+			}
+			metadata.Accessed = now
+			return ctxBucket.Put(id, common.EmbedMetadata(data, metadata))
 		})
 		if err != nil {
 			return nil, err
